@@ -722,6 +722,38 @@ func Scrap(w *load.World, c *core.Collector) {
 		p, _ := ssax.Path(call.Call.Args[0])
 		return strings.Contains(p, "sharedCaches")
 	}
+	// the mark and the unpublishing may sit in a small helper of the package that does both
+	// unconditionally (every block of it that holds one dominates its returns)
+	viaHelper := func(direct func(ssa.Instruction) bool) func(ssa.Instruction) bool {
+		return func(in ssa.Instruction) bool {
+			if direct(in) {
+				return true
+			}
+			h := ssax.StaticModuleCallee(in)
+			if h == nil || len(h.Blocks) == 0 || load.PkgPath(h) != load.Mod+"/shard/cache" {
+				return false
+			}
+			for _, hb := range h.Blocks {
+				for _, hi := range hb.Instrs {
+					if !direct(hi) {
+						continue
+					}
+					uncond := true
+					for _, rb := range h.Blocks {
+						if _, isRet := rb.Instrs[len(rb.Instrs)-1].(*ssa.Return); isRet && !hb.Dominates(rb) {
+							uncond = false
+						}
+					}
+					if uncond {
+						return true
+					}
+				}
+			}
+			return false
+		}
+	}
+	isScrapStore = viaHelper(isScrapStore)
+	isMapDelete = viaHelper(isMapDelete)
 	isFailedStore := func(in ssa.Instruction) bool {
 		call, ok := in.(*ssa.Call)
 		if !ok {
@@ -1070,7 +1102,28 @@ func Scrap(w *load.World, c *core.Collector) {
 		if ifi, ok := b.Instrs[len(b.Instrs)-1].(*ssa.If); ok {
 			o := ssax.Prov(ifi.Cond)
 			_, isPhi := ifi.Cond.(*ssa.Phi)
-			if len(commit.Params) > 1 && o["param:"+commit.Params[1].Name()] && isPhi && loadsFailedFlag(commit) {
+			// the flag used directly as a condition: `if t.failed.Load() || fail {` is two branches
+			// into one block, no materialised value
+			var shortT *ssa.BasicBlock
+			if len(commit.Params) > 1 && !isPhi && peelToParam(ifi.Cond) == ssa.Value(commit.Params[1]) {
+				for _, b1 := range commit.Blocks {
+					if1, ok := b1.Instrs[len(b1.Instrs)-1].(*ssa.If)
+					if !ok || b1 == b {
+						continue
+					}
+					call, ok := if1.Cond.(*ssa.Call)
+					if !ok || call.Call.StaticCallee() == nil || call.Call.StaticCallee().String() != "(*sync/atomic.Bool).Load" {
+						continue
+					}
+					if pth, _ := ssax.Path(call.Call.Args[0]); !strings.HasSuffix(pth, ".failed") {
+						continue
+					}
+					if b1.Succs[0] == b.Succs[0] && (b1.Succs[1] == b || b.Succs[1] == b1) {
+						shortT = b.Succs[0]
+					}
+				}
+			}
+			if len(commit.Params) > 1 && ((o["param:"+commit.Params[1].Name()] && isPhi && loadsFailedFlag(commit)) || shortT != nil) {
 				failedCond = ifi.Cond
 				isElemUnlock := func(in ssa.Instruction) bool {
 					call, ok := in.(*ssa.Call)
@@ -1086,7 +1139,20 @@ func Scrap(w *load.World, c *core.Collector) {
 				for name, pred := range map[string]func(ssa.Instruction) bool{"scrapped=true": isScrapStore, "delete(sharedCaches)": isMapDelete} {
 					v := core.OK
 					d := ""
-					if !regionHas(commit, []ssax.Edge{{From: b, Succ: 0}}, pred) {
+					inRegion := regionHas(commit, []ssax.Edge{{From: b, Succ: 0}}, pred)
+					if shortT != nil {
+						inRegion = false
+						for _, rb := range commit.Blocks {
+							if shortT.Dominates(rb) {
+								for _, ri := range rb.Instrs {
+									if pred(ri) {
+										inRegion = true
+									}
+								}
+							}
+						}
+					}
+					if !inRegion {
 						v = core.Violation
 						d = "Commit of a failed transaction does not perform " + name
 					} else if name == "scrapped=true" {
